@@ -521,6 +521,8 @@ def _world(tier):
         raw.execute("create or replace table db1.s1.kk (k tinyint, t integer, id integer, x boolean)")
         for s in split_setup(range(len(SPLIT_STRINGS))):
             cur.execute(s)
+        for s in nest_load_sql(nest_docs_for(tier)):
+            cur.execute(s)
         w = _W[tier] = {"fs": fs, "conn": conn, "cur": cur, "docs": docs, "raw": raw, "kk": None}
     return w
 
@@ -529,8 +531,8 @@ def _exc_name(e):
     return f"{type(e).__module__}.{type(e).__name__}"
 
 
-def run_exprs(cur, acc, exprs, pre, tail):
-    """Evaluate `exprs` as one SELECT list (`pre` leading columns, `tail` = FROM/WHERE text). A raising statement is
+def run_exprs(cur, acc, exprs, pre, tail, head=""):
+    """Evaluate `exprs` as one SELECT list (`pre` leading columns, `tail` = FROM/WHERE text, `head` = WITH clause). A raising statement is
     split in halves down to single expressions. Returns per expression ('ok', [(pre values, value), ...]) in result
     order, or ('err', exception class, first line of the message)."""
     out = [None] * len(exprs)
@@ -540,7 +542,7 @@ def run_exprs(cur, acc, exprs, pre, tail):
         sel = ", ".join(list(pre) + [f"{exprs[i]} as c{i}" for i in range(lo, hi)])
         acc.count("statements")
         try:
-            cur.execute(f"select {sel}{tail}")
+            cur.execute(f"{head}select {sel}{tail}")
             rows = cur.fetchall()
         except Exception as e:  # noqa: BLE001  (any exception = the statement is rejected)
             if hi - lo == 1:
@@ -585,6 +587,7 @@ CLASS_FEATURES: dict = {
     "C11.construct": ("op", "style", "cause", "kind", "case"),
     "C11.object_construct": ("op", "style", "cause", "case"),
     "C11.split": ("op", "kind", "form"),
+    "C11.nested": ("source", "w", "fc1", "fc2", "op", "kind"),
 }
 
 
@@ -1325,6 +1328,301 @@ def work_misc(item, acc, tier):
     return None
 
 
+
+# ---- nested navigation ----------------------------------------------------------------------------------------------------------
+# A path + operation whose *base* is itself an expression built from another path (+ cast) of the document:
+#   OUTER_OP( WRAPPER( INNER_PATH(v) ) OUTER_PATH )      e.g.  parse_json(v:B::varchar):a::varchar
+# Complete product  NEST_DOCS x NEST_P1 (inner path) x NEST_SYN (inner syntax) x NEST_WRAPPERS x P2[family] (outer path) x
+# NEST_SYN (outer syntax) x NEST_OPS (outer op), on the table column jn.v (all document rows at once) and -- a smaller
+# product -- on an inline PARSE_JSON('<document>') literal. The reference composes the Python navigations.
+N_I1 = {"a": "Str", "B": [0, 'q"']}
+N_I2 = ["Str", {"a": -1.5}]
+# values at the end of the inner path: a plain string, strings that are themselves JSON text (double-encoded payloads:
+# of an object, an array, a string, a number), the empty string, scalars, JSON null, and real sub-documents
+NEST_VALS = ["Str", canon(N_I1), canon(N_I2), '"Str"', "0", "", 0, True, None, N_I1, N_I2]
+NEST_P1 = {"quick": [("B",), (1,), ("zz",)], "thorough": [("a",), ("B",), (0,), (1,), ("zz",)]}
+NEST_SYN = ["colon", "bracket", "getpath"]
+NEST_OPS = {"quick": ["raw", "varchar", "trim", "array_size", "int"],
+            "thorough": ["raw", "varchar", "string", "upper", "lower", "trim", "array_size", "int", "float"]}  # fmt: skip
+NEST_P2 = {  # outer paths by what the wrapper's value is
+    "val": [(), ("a",), ("B",), (0,), (1,), ("B", 0), ("B", 1), (1, "a"), ("zz",)],  # the inner value (parsed)
+    "k": [("k",), ("k", "a"), ("k", 0), ("zz",)],  # OBJECT_CONSTRUCT('k', inner value)
+    "arr": [(0,), (0, "a"), (0, 0), (1,)],  # ARRAY_CONSTRUCT(inner value)
+    "doc": [("a",), ("B",), (0,), (1,), ("zz",)],  # the whole document, chosen by a condition over the inner value
+}
+NEST_LIT_VALS = {"quick": [canon(N_I1), "Str", N_I1], "thorough": NEST_VALS}
+
+
+def nest_docs_for(tier):
+    frames = FRAMES if tier == "thorough" else FRAMES_QUICK
+    return _dedupe([frame(f, v, FILL) for f in frames for v in NEST_VALS])
+
+
+def nest_lit_docs_for(tier):
+    """(document, inner path): literal source, one frame per kind of step"""
+    out = []
+    for f, p1 in (("O2R", (KEY2,)), ("A2R", (1,))) if tier == "quick" else (("O1", (KEY1,)), ("O2R", (KEY2,)), ("A1", (0,)), ("A2R", (1,))):
+        for v in NEST_LIT_VALS[tier]:
+            out.append((frame(f, v, FILL), p1))
+    return out
+
+
+def nest_load_sql(docs):
+    rows = ", ".join(f"({n}, {_sqlstr(canon(d))})" for n, d in enumerate(docs))
+    return ["create or replace table jn (id int, v variant)", f"insert into jn select column1, parse_json(column2) from values {rows}"]
+
+
+def _n_parse(strict):
+    def f(doc, x):
+        t = J.to_text(x)
+        if t is None:
+            return J.MISSING
+        if isinstance(t, J.JsonText):
+            return t.doc
+        if t == "":
+            return J.UNDEMANDED  # PARSE_JSON('') is NULL in Snowflake's lenient parser, an error elsewhere: not demanded
+        try:
+            return json.loads(t)
+        except ValueError:
+            return J.UNDEMANDED if strict else J.MISSING
+
+    return f
+
+
+def _n_text(build):
+    def f(doc, x):
+        t = J.to_text(x)
+        if isinstance(t, J.JsonText):
+            return J.UNDEMANDED  # the text of a container is not pinned down (whitespace)
+        return build(t)
+
+    return f
+
+
+def _n_cond(conv, test):
+    """the whole document if test(conv(inner value)) is TRUE, else SQL NULL"""
+
+    def f(doc, x):
+        c = conv(x)
+        if c is J.UNDEMANDED:
+            return J.UNDEMANDED
+        if isinstance(c, J.JsonText):
+            c = json.dumps(c.doc)
+        return doc if test(c) is True else J.MISSING
+
+    return f
+
+
+def _n_coalesce(doc, x):
+    return J.UNDEMANDED if x is None else x  # COALESCE over a JSON null: JSON null vs SQL NULL, not demanded
+
+
+def _n_not_uncast(doc, x):
+    k = J.kind_of(x)
+    if k == "missing":
+        return doc  # NOT NULL is NULL -> ELSE branch
+    if k == "bool":
+        return J.MISSING if x is False else doc  # iff(not x, NULL, v)
+    return J.UNDEMANDED
+
+
+# (id, SQL template over {X} = inner path on the source and {V} = the source, inner op the base depends on, reference
+#  (doc, inner value) -> base document | MISSING (SQL NULL) | UNDEMANDED, outer path family, placement, outer syntaxes)
+NEST_WRAPPERS = [
+    ("parse_json", "parse_json({X}::varchar)", "varchar", _n_parse(True), "val", "inline", NEST_SYN),
+    ("try_parse_json", "try_parse_json({X}::varchar)", "varchar", _n_parse(False), "val", "inline", NEST_SYN),
+    ("parse_json.string", "parse_json({X}::string)", "string", _n_parse(True), "val", "inline", NEST_SYN),
+    ("parse_json.trim", "parse_json(trim({X}))", "trim", _n_parse(True), "val", "inline", NEST_SYN),
+    ("object_construct.text", "object_construct('k', {X}::varchar)", "varchar", _n_text(lambda t: {} if t is None else {"k": t}), "k", "inline", NEST_SYN),
+    ("object_construct.raw", "object_construct('k', {X})", "raw", lambda doc, x: {} if x is J.MISSING else {"k": x}, "k", "inline", NEST_SYN),
+    ("object_construct_keep_null.text", "object_construct_keep_null('k', {X}::varchar)", "varchar", _n_text(lambda t: {"k": t}), "k", "inline", NEST_SYN),
+    ("array_construct.text", "array_construct({X}::varchar)", "varchar", _n_text(lambda t: [t]), "arr", "inline", NEST_SYN),
+    ("array_literal.raw", "[{X}]", "raw", lambda doc, x: [None if x is J.MISSING else x], "arr", "inline", NEST_SYN),
+    ("iff.text", "iff({X}::varchar = 'Str', {V}, NULL)", "varchar", _n_cond(J.to_text, lambda t: J.cmp3(t, "=", "Str")), "doc", "inline", NEST_SYN),
+    ("iff.int", "iff({X}::int = 0, {V}, NULL)", "int", _n_cond(J.to_number, lambda n: J.cmp3(n, "=", 0)), "doc", "inline", NEST_SYN),
+    ("iff.not", "iff(not {X}, NULL, {V})", "raw", _n_not_uncast, "doc", "inline", NEST_SYN),
+    ("case.text", "case when {X}::varchar = 'Str' then {V} end", "varchar", _n_cond(J.to_text, lambda t: J.cmp3(t, "=", "Str")), "doc", "inline", ["getpath"]),
+    ("iff.branch", "iff({V}:zz is null, {X}, NULL)", "raw", lambda doc, x: x, "val", "inline", NEST_SYN),
+    ("coalesce", "coalesce({V}:zz, {X})", "raw", _n_coalesce, "val", "inline", NEST_SYN),
+    ("subquery", "{X}", "raw", lambda doc, x: x, "val", "subquery", NEST_SYN),
+    ("subquery.parse_json", "parse_json({X}::varchar)", "varchar", _n_parse(True), "val", "subquery", NEST_SYN),
+    ("cte", "{X}", "raw", lambda doc, x: x, "val", "cte", NEST_SYN),
+]
+
+
+def _nest_place(placement, wsql, cond=None, single=False):
+    """-> (head, leading columns, tail, source text of the outer path) for a statement over table jn"""
+    where = "" if single else f" where id in (select id from kk where {cond})"
+    if placement == "inline":
+        return "", ["id"], f" from jn{where}", wsql
+    if placement == "subquery":
+        return "", ["t.id"], f" from (select id, {wsql} as c from jn{where}) t", "t.c"
+    if placement == "cte":
+        return f"with t as (select id, {wsql} as c from jn{where}) ", ["id"], " from t", "c"
+    raise ValueError(placement)
+
+
+def nest_exprs(wrapper, src, xsql, tier, lit=False):
+    """[(outer path, outer syntax, form, op, template over {S} = the wrapper's value)]"""
+    wid, _tpl, _inner, _ref, fam, _place, syns = wrapper
+    out = []
+    for p2 in NEST_P2[fam]:
+        for sy, _sql, form in renderings("{S}", p2, [s for s in syns if not (lit and s == "getpath" and tier == "quick")]):
+            for o in NEST_OPS[tier]:
+                out.append((p2, sy, form, o))
+    return out
+
+
+def _nest_expected(wrapper, doc, x, p2, o):
+    base = wrapper[3](doc, x)
+    if base is J.UNDEMANDED:
+        return J.UNDEMANDED, None
+    tgt = J.MISSING if base is J.MISSING else J.navigate(base, p2)
+    return expected(o, tgt), tgt
+
+
+def work_nest(item, acc, tier):
+    """item = ('nest', wrapper index, inner path index): every inner syntax x outer path x outer syntax x outer op over all
+    rows of jn. Rows where the inner path + its cast alone are wrong, and rows where nothing is demanded, stay out."""
+    _, wi, pi = item
+    wrapper = NEST_WRAPPERS[wi]
+    wid, tpl, inner, ref, fam, placement, _syns = wrapper
+    p1 = NEST_P1[tier][pi]
+    w = _world(tier)
+    cur = w["cur"]
+    docs = nest_docs_for(tier)
+    xs = [J.navigate(d, p1) for d in docs]
+    _ks, ts = _set_kk(w, ("nest", pi), xs)
+    allids = list(range(len(docs)))
+    for sy1, xsql, form1 in renderings("v", p1, NEST_SYN):
+        # level 0: the inner path with the conversion the wrapper applies to it, on its own
+        iexp = {i: expected(inner, xs[i]) for i in allids}
+        live0 = [i for i in allids if iexp[i] is not J.UNDEMANDED]
+        _set_excluded(w, set(allids) - set(live0))
+        r0 = run_exprs(cur, acc, [OPS[inner]["tpl"].format(x=xsql)], ["id"], " from jn where id in (select id from kk where not x)")[0]
+        got0 = _by_id(r0[1]) if r0[0] == "ok" else {}
+        good0 = [i for i in live0 if r0[0] == "ok" and _judge(OPS[inner]["mode"], iexp[i], ("ok", got0.get(i, ())))]
+        acc.count("shadowed_cells", len(live0) - len(good0))
+        wsql = tpl.format(X=xsql, V="v")
+        _h, _pre, _t, src = _nest_place(placement, wsql, "true")
+        combos = nest_exprs(wrapper, src, xsql, tier)
+        # expressions grouped by the set of rows on which they are demanded
+        groups: dict = {}
+        exps: dict = {}
+        for c in combos:
+            p2, sy2, form2, o = c
+            per = {}
+            for i in good0:
+                e, tgt = _nest_expected(wrapper, docs[i], xs[i], p2, o)
+                if e is not J.UNDEMANDED:
+                    per[i] = (e, tgt)
+            exps[c] = per
+            if per:
+                groups.setdefault(frozenset(per), []).append(c)
+        for rowset in sorted(groups, key=sorted):
+            cs = groups[rowset]
+            ids = sorted(rowset)
+            _set_excluded(w, set(allids) - rowset)
+            texts = [OPS[o]["tpl"].format(x=_render(src, p2, sy2)[0]) for (p2, sy2, _f, o) in cs]
+
+            def mk(cond):
+                return _nest_place(placement, wsql, cond)
+
+            res = []
+            for ch in _chunks(texts, BATCH):
+                head, pre, tail, _s = mk("not x")
+                res += run_exprs(cur, acc, ch, pre, tail, head)
+            for c, e, r in zip(cs, texts, res):
+                p2, sy2, form2, o = c
+                per_id = None
+                if r[0] == "err" and len({ts[i] for i in ids}) > 1:
+                    head, pre, tail, _s = mk("k = -1")
+                    if run_exprs(cur, acc, [e], pre, tail, head)[0][0] == "ok":  # the error depends on the data
+                        acc.count("refined_per_value")
+                        per_id = {}
+                        for tv in sorted({ts[i] for i in ids}):
+                            head, pre, tail, _s = mk(f"t = {tv} and not x")
+                            rr = run_exprs(cur, acc, [e], pre, tail, head)[0]
+                            got = _by_id(rr[1]) if rr[0] == "ok" else None
+                            for i in ids:
+                                if ts[i] == tv:
+                                    per_id[i] = ("ok", got.get(i, ())) if got is not None else rr
+                if per_id is None:
+                    got = _by_id(r[1]) if r[0] == "ok" else None
+                    per_id = {i: (("ok", got.get(i, ())) if got is not None else r) for i in ids}
+                stats: dict = {}
+                sig = []
+                for i in ids:
+                    exp, tgt = exps[c][i]
+                    rr = per_id[i]
+                    sig.append((i, rr[0], rr[1]))
+                    if exp is not None and exp is not J.MISSING:
+                        acc.nontrivial(("nest", wid, p1, sy1, p2, sy2, o, canon(docs[i])))
+                    st = stats.setdefault(J.kind_of(tgt), [0, 0, None])
+                    st[0] += 1
+                    if not _judge(OPS[o]["mode"], exp, rr):
+                        st[1] += 1
+                        if st[2] is None:
+                            head, _pre, tail, _s = _nest_place(placement, wsql, single=True)
+                            sql1 = f"{head}select {e}{tail}"
+                            st[2] = (
+                                {"sql": sql1, "document": docs[i], "expected": repr(exp), "observed": _observed(rr)},
+                                _replay_payload(nest_load_sql([docs[i]]), sql1, enc(OPS[o]["mode"], exp)),
+                            )
+                acc.count("evaluations", len(ids))
+                acc.obs(("nest", wid, p1, sy1, p2, sy2, o, sig))
+                for kind in sorted(stats):
+                    n, nfail, example = stats[kind]
+                    acc.outcome(("nest", wid, o, kind, "fail" if nfail else "ok"))
+                    feats = {"source": "col", "w": wid, "fc1": formclass(form1), "fc2": formclass_ops(form2), "op": o, "kind": kind}
+                    _record(acc, "C11.nested", feats, n, nfail, example)
+    if wi % 5 == 0 and pi == 0:
+        acc.sample({"mode": "nest", "wrapper": tpl, "inner_path": list(p1), "documents": len(docs), "one_document": docs[1],
+                    "some_expressions": [OPS[o]["tpl"].format(x=_render(tpl.format(X=_render("v", p1, "colon")[0], V="v"), p2, sy2)[0])
+                                         for (p2, sy2, _f, o) in nest_exprs(wrapper, "", "", tier)[5:40:9]]})  # fmt: skip
+    return None
+
+
+def nestlit_cells(doc, p1, tier):
+    """the inline wrappers on a PARSE_JSON('<document>') literal (one document, its own inner path)"""
+    src0 = f"parse_json({_sqlstr(canon(doc))})"
+    x = J.navigate(doc, p1)
+    cells = []
+    syn = ["colon", "bracket"] if tier == "quick" else NEST_SYN
+    for wrapper in NEST_WRAPPERS:
+        wid, tpl, inner, ref, fam, placement, _syns = wrapper
+        if placement != "inline":
+            continue
+        for sy1, xsql, form1 in renderings(src0, p1, syn):
+            iexp = expected(inner, x)
+            if iexp is J.UNDEMANDED:
+                continue
+            base = len(cells)
+            cells.append({"expr": OPS[inner]["tpl"].format(x=xsql), "mode": OPS[inner]["mode"], "exp": iexp, "clause": clause_of(inner, x), "deps": [],
+                          "feats": {"source": "lit", "fc": formclass(form1), "fco": formclass_ops(form1), "op": inner, "kind": J.kind_of(x)},
+                          "key": ("nestlit0", canon(doc), wid, sy1)})  # fmt: skip
+            wsql = tpl.format(X=xsql, V=src0)
+            for p2, sy2, form2, o in nest_exprs(wrapper, wsql, xsql, tier, lit=True):
+                exp, tgt = _nest_expected(wrapper, doc, x, p2, o)
+                if exp is J.UNDEMANDED:
+                    continue
+                cells.append({"expr": OPS[o]["tpl"].format(x=_render(wsql, p2, sy2)[0]), "mode": OPS[o]["mode"], "exp": exp, "clause": "C11.nested",
+                              "deps": [base], "key": ("nestlit", canon(doc), wid, sy1, p2, sy2, o),
+                              "feats": {"source": "lit", "w": wid, "fc1": formclass(form1), "fc2": formclass_ops(form2), "op": o, "kind": J.kind_of(tgt)}})  # fmt: skip
+    return cells
+
+
+def work_nestlit(item, acc, tier):
+    _, di = item
+    doc, p1 = nest_lit_docs_for(tier)[di]
+    w = _world(tier)
+    cells = nestlit_cells(doc, p1, tier)
+    run_cells(w["cur"], acc, cells)
+    if di == 0:
+        acc.sample({"mode": "nestlit", "document": doc, "inner_path": list(p1), "expressions": len(cells), "some": [c["expr"] for c in cells[3:60:14]]})
+    return None
+
+
 def work(item, acc, tier):
     kind = item[0]
     if kind == "col":
@@ -1337,6 +1635,10 @@ def work(item, acc, tier):
         return work_ctor(item, acc, tier)
     if kind == "misc":
         return work_misc(item, acc, tier)
+    if kind == "nest":
+        return work_nest(item, acc, tier)
+    if kind == "nestlit":
+        return work_nestlit(item, acc, tier)
     raise core.HarnessError(f"unknown item {item!r}")
 
 
@@ -1348,6 +1650,8 @@ def items_for(tier):
     items += [("lit", di) for di in range(len(lit_docs_for(tier)))]
     items += [("ctor", di) for di in range(len(ctor_docs_for(tier)))]
     items += [("misc", m) for m in ("parse", "nullkey", "split", "flatlit")]
+    items += [("nest", wi, pi) for wi in range(len(NEST_WRAPPERS)) for pi in range(len(NEST_P1[tier]))]
+    items += [("nestlit", di) for di in range(len(nest_lit_docs_for(tier)))]
     return items
 
 
